@@ -948,6 +948,12 @@ var configs = map[string]cfgT{
 		dataNames: append([]string{"/a"}, nt...), lpData: []string{"tok"}, nackNames: nt, advNext: true},
 	// ... nor FIB nodes (handlers attached at such prefixes must not collide)
 	"typedh": {prefixes: nt, inNames: nt, inLives: []int{10}, maxIn: 2, adv10: true},
+	// tiny alphabets for deep history searches WITHOUT de-duplication (explore.Config.NoDedup): a bug
+	// that adds hidden state no canonical form can see (cached node pointer, reused scratch slice)
+	// cannot be pruned away there
+	"tiny": {names: n2, cbps: []bool{false}, lives: []int{10}, digs: []string{"none"}, maxInt: 4,
+		dataNames: n2, nackNames: []string{"/a"}, advNext: true},
+	"tinyh": {prefixes: n2, inNames: n2, inLives: []int{10}, maxIn: 2, adv10: true},
 	// both sides at once (thorough tier)
 	"mixed": {names: n2, cbps: []bool{false, true}, lives: []int{10}, digs: []string{"none"}, maxInt: 2,
 		dataNames: n2, lpData: []string{"tok"}, nackNames: n2, advNext: true, adv10: true, split: true,
@@ -993,6 +999,13 @@ func main() {
 			for _, x := range l {
 				c = append(c, explore.Config{Name: x.n, MaxDepth: x.d, MaxDev: -1})
 			}
+			// history searches without de-duplication (both tiers), last: they take what budget is left
+			hd, hh := 8, 8
+			if th {
+				hd, hh = 10, 10
+			}
+			c = append(c, explore.Config{Name: "tiny i=4 in=0", MaxDepth: hd, MaxDev: -1, NoDedup: true},
+				explore.Config{Name: "tinyh i=0 in=2", MaxDepth: hh, MaxDev: -1, NoDedup: true})
 			return c
 		},
 		Budget: func(th bool) time.Duration {
